@@ -1,5 +1,6 @@
 //! C03 - the on-disk structures stay consistent after every operation
-use super::hist::HistProp;
+use super::hist::{self, HistProp};
+use crate::run::{Report, Tier};
 use crate::gen::GenCfg;
 use crate::ops::{Aspect, RunCfg, Trace};
 
@@ -27,4 +28,47 @@ pub fn prop() -> HistProp {
         pressure_cases: (6000, 120000),
         assumptions: vec!["file handles are flushed at the end of each mutating file call, so deferred size/first-cluster state (C04/C14) is not mistaken for corruption", "documented preconditions of DESIGN 4.3"],
     }
+}
+
+pub fn run(tier: Tier, seed: u64) -> i32 {
+    let hp = prop();
+    let mut rep = Report::new(hp.id, tier, seed, hp.level, hp.rule);
+    rep.rule.push_str("; plus the reserved dot entries as operands: each of 43 calls that end in or pass through '.' / '..' (remove, rename from / onto, create, create / remove through a handle opened on a dot entry, write) alone and (thorough: in every ordered pair) on a FAT12, FAT16 and FAT32 volume - no outcome is predicted, the image must pass fsck after every call and after unmount");
+    for a in &hp.assumptions {
+        rep.assume(a);
+    }
+    let kb = hist::known_block(&hp, &mut rep);
+    rep.add(kb);
+    rep.add(hist::regress_block(&hp));
+    // regression cases of the dot-entry block (kind "dots") are not histories
+    let mut reg = crate::run::Block::new("regress_dot_entries");
+    for f in crate::run::regress_files("C03") {
+        if let Ok(v) = crate::run::load_replay(&f) {
+            if v["kind"].as_str() != Some("dots") {
+                continue;
+            }
+            if let Ok(c) = serde_json::from_value::<super::c03dots::DotCase>(v["case"].clone()) {
+                let out = super::c03dots::eval(&c);
+                reg.record(&out, || v["case"].clone());
+                if let Some(m) = out.violation {
+                    if reg.failure.is_none() {
+                        reg.failure = Some(crate::run::Failure { message: format!("regression case {}: {}", f, m), case: v["case"].clone(), kind: "dots".into() });
+                    }
+                }
+            }
+        }
+    }
+    rep.add(reg);
+    if !rep.failed() {
+        rep.add(super::c03dots::block(tier == Tier::Thorough));
+    }
+    if !rep.failed() {
+        rep.add(hist::random_block(&hp, "random_histories", seed, tier.pick(hp.quick_cases, hp.thorough_cases)));
+    }
+    if !rep.failed() {
+        if let Some(b) = hist::pressure_block(&hp, seed, tier) {
+            rep.add(b);
+        }
+    }
+    rep.finish()
 }
